@@ -86,10 +86,13 @@ chk('C16', 'model_checking',
 chk('C18', 'model_checking',
     'Symbolic execution of the real track_table::add/get/update/remove/exists and all ~45 per-column getter/setter pairs together with the real sqlite_modern_cpp binders over a key/value model of the sqlite3 C API: '
     'all 48 row fields symbolic (strings as symbolic bytes, so two swapped same-typed columns differ for every value), one run per schema column-list range and optional-presence pattern. '
-    'Asserted: get(add(r)) == r, get after update(r) == r (minus id and DB-maintained columns), getter == field, setter changes its column only, absent ids raise.',
+    'Asserted: get(add(r)) == r, get after update(r) == r (minus id and DB-maintained columns), getter == field, setter changes its column only, absent ids raise. '
+    'playlist_table (add / get / exists / update in place or moved / remove), playlist_entity_table (add_back with and without throw_if_duplicate, get, get_for_list, remove, clear; two database uuids) and information_table '
+    'run over the relational sqlite3 model with every caller-owned field symbolic; the written row must read back, other rows keep their caller-owned columns, update of a nonexistent row must throw.',
     'Trusted: clang lowering, lsx, lsx/models_sqlite.py (column lists and ? positions parsed from the real SQL text; a bound value is stored and returned unchanged; type affinity ignored), z3 and the integer encoding. '
-    'playlist_table / playlist_entity_table are outside (iostream date formatting, relational SQL). Counterexamples are not replayed against a real SQLite (stated).',
-    'symbolic execution of LLVM IR (lsx, z3) over a key/value sqlite3 model', 'DESIGN.md §3 C18')
+    'Playlist tables: lsx/models_rel.py (validated against the real SQLite; sampled paths and every counterexample replayed natively through the public table API); the text form of the edit time (date.h through iostreams) is replaced by an '
+    'injective text code of the whole seconds (contract: parse_ft(to_ft(t)) == floor_seconds(t)). track_table counterexamples are not replayed against a real SQLite (stated).',
+    'symbolic execution of LLVM IR (lsx, z3) over a key/value sqlite3 model (track_table) and a relational sqlite3 model (playlist tables, native replay)', 'DESIGN.md §3 C18')
 chk('C19', 'other',
     'SMT validity over the whole stated domain (sample count in [0, 2^62], every double rate in [0, 2^31]): the real functions are executed symbolically '
     '(loop-free, 3 paths) and each obligation of harness/h_wave.cpp is shown unsatisfiable by z3 - natively in BV/FP where that finishes (floor lemma, exactness), '
@@ -105,9 +108,17 @@ chk('C20', 'model_checking',
     'Non-integer offsets/tempi are outside (the rounding clauses do not hold for all doubles). One listed known finding (second surviving marker at index <= -4).',
     'bounded symbolic execution of LLVM IR (lsx) + z3 linear integer arithmetic via an exact FP encoding', 'DESIGN.md §3 C20')
 for pid, why in (
-    ('C10', 'persistence across close/reopen is a fact about SQLite\'s pager and two attached files; the glue has no input, schedule or fault to quantify over and SQLite (250 kLoC, not in the tree) cannot be encoded for a bounded symbolic engine (DESIGN.md §4)'),
-    ('C12', 'a finite comparison of DDL emitted by create() with reference dumps modulo SQLite\'s own parser; no symbolic variable, needs the real SQLite to normalise both sides (DESIGN.md §4)')):
+    ('C12', 'a finite comparison of DDL emitted by create() with reference dumps modulo SQLite\'s own parser; no symbolic variable, needs the real SQLite to normalise both sides (DESIGN.md §4)'),):
     na(pid, why)
+chk('C10', 'model_checking',
+    'Partial: the glue half of the statement, both generations.  A history of crate / track operations (concrete prefix + 1-2 operations with symbolic kind and operands: membership add / remove / clear, remove track / crate, '
+    'create track / crate / sub-crate, retitle / rate a track, rename a crate) runs over the relational sqlite3 model; the whole observation is made through the handles the history holds, every handle and the database '
+    'object are released (sqlite3_close rolls an open transaction back, committed rows stay), the library objects are built again over the store and the observation is repeated through fresh handles obtained by id. '
+    'The solver decides on every path that both observations are equal: nothing observable lives only in a handle or implementation object, no write is left in an open transaction. Sampled passing paths and every '
+    'counterexample are replayed natively on a library created ON DISK, closed and loaded again with load_database (which must report the created schema version).',
+    'NOT covered (stated): durability of a COMMIT in SQLite\'s pager / journal, which attached file of 1.x a table lives in, the loader and create_or_load_database as symbolic code (the loader runs only in the native '
+    'replays of sampled paths; its decision table is C13), closing at inner prefixes, fields beyond title / rating. Trusted: as C07/C08 (lsx/models_rel.py validated against the real SQLite), one store per run stands for the files.',
+    'bounded symbolic execution of LLVM IR (lsx, z3) over a relational sqlite3 model with close / reopen + native replay on a real on-disk library', 'DESIGN.md §3 C10')
 chk('C07', 'model_checking',
     'Both generations (2.x: database_impl / crate_impl / playlist_table; 1.x: engine_database_impl / engine_crate_impl incl. the three redundant encodings and, from 1.9.1, the List views with INSTEAD OF triggers): symbolic execution '
     'through sqlite_modern_cpp over a relational sqlite3 model whose tables, views, UNIQUE constraints and triggers are parsed on every run from the DDL in '
